@@ -35,6 +35,8 @@ META = {
             '(s,), (s, filler), (filler, s) per level, with every kind at the bottom, and placed as set members, map keys (int and '
             'nested-tuple values), inside list<set>, tuple<map>, map<text,map<.., list>> and, for comparison, as list members; per kind '
             'and depth one set and one map carry every boundary value of the kind at the bottom, and one member mixes leaves at depths 1..4; '
+            'a UDT mapped to a namedtuple (the other hashable container) holds every hashable kind as set member, map key, inside a tuple '
+            'member, around a tuple and around another UDT; '
             'serialize -> json.dumps -> json.loads -> deserialize must give back an equal value of the same python type '
             '(1, 1.0 and True differ, NaN equals NaN, -0.0 differs from 0.0).',
     'note': 'Documented normalisations accepted: blobs come back as bytearray, inet addresses as their canonical text, '
@@ -772,7 +774,7 @@ def run(ctx):
                        'and class)/nested depth 2 in GraphSON 3) + kind-independent shapes + nested tuples (3**d shapes for each depth d in 2..3, '
                        'thorough 2..4, x kind x placements {list member; hashable kinds: set member, map key -> int, map key -> nested tuple; '
                        'd = 2 or thorough: list<set>, tuple<map>, map<text,map<..,list>>} + per hashable kind and depth set/all and map/all + '
-                       'mixed-depth member); non-trivial = any container case or any value '
+                       'mixed-depth member + 6 namedtuple-UDT-as-member/key shapes per hashable kind); non-trivial = any container case or any value '
                        'other than the first (ordinary) one of its kind')
     ctx.cov['exhaustive'] = True
     ctx.assume('timezone-aware datetimes/times are left out (they come back naive in UTC by design)')
